@@ -1,20 +1,31 @@
 """Reference model: the continuous-FT-approximating centred DFT, written from the
-statement (origin at the centre sample c = N//2, frequencies (m - c)/(N delta))."""
+statement (origin at the centre sample c = N//2, frequencies (m - c)/(N delta)).
+
+The phase 2 pi (m - c)(k - c) / N is reduced modulo N in INTEGER arithmetic before it is
+multiplied by 2 pi / N: the unreduced argument reaches pi N / 2 rad and would carry an error
+of about eps * pi * N / 2 (2.5e-11 at N = 65537), all of it the model's own."""
 import numpy
+
+
+def phase(N, product, sign=-1):
+    """exp(sign * 2 pi i * product / N) for an integer array `product`, reduced exactly first"""
+    r = numpy.asarray(product, dtype=numpy.int64) % int(N)
+    return numpy.exp(sign * 2j * numpy.pi * r / float(N))
 
 
 def centred_dft(N, delta):
     c = N // 2
-    m = numpy.arange(N) - c
-    return delta * numpy.exp(-2j * numpy.pi * numpy.outer(m, m) / N)
+    m = numpy.arange(N, dtype=numpy.int64) - c
+    return delta * phase(N, numpy.outer(m, m), -1)
 
 
 def centred_idft(N, delta_f):
     c = N // 2
-    m = numpy.arange(N) - c
-    return delta_f * numpy.exp(2j * numpy.pi * numpy.outer(m, m) / N)
+    m = numpy.arange(N, dtype=numpy.int64) - c
+    return delta_f * phase(N, numpy.outer(m, m), +1)
 
 
-def kron2(F):
-    """operator of the separable 2-D transform on row-major flattened N x N arrays"""
-    return numpy.kron(F, F)
+def kron2(F, F2=None):
+    """operator of the separable 2-D transform on row-major flattened arrays: F acts on the first (row) axis,
+    F2 (default F: square grid) on the last axis"""
+    return numpy.kron(F, F if F2 is None else F2)
